@@ -243,6 +243,31 @@ Proof.
     apply plain_kids; [exact Hp | |]; apply forallb_app_iff; split; auto; apply forallb_cons; auto.
 Qed.
 
+(* ================================================================== retighten *)
+Lemma retighten_TI o ex st p st' : retighten st p = Ok st' -> TI o ex st -> TI o ex st'.
+Proof.
+  unfold retighten. intros H V. destruct p as [item|]; [|inversion H; subst; exact V].
+  destruct (parent_of item (ps_root st)) as [lid|]; [|inversion H; subst; exact V].
+  destruct (get st lid) as [l| |] eqn:G; cbn [bind] in H; try discriminate H.
+  destruct (bi_open (binf l)); [inversion H; subst; exact V|].
+  destruct (bval l) eqn:Bv; try (inversion H; subst; exact V).
+  eapply modify_info_TI; [exact V | exact H |].
+  intros n Fn. rewrite (get_find _ _ _ G) in Fn. inversion Fn; subst. unfold bval in Bv. cbn. rewrite Bv.
+  split; [reflexivity|]. split; [reflexivity|]. split; [intro HD; discriminate HD | right; split; reflexivity].
+Qed.
+
+Lemma retighten_next st p st' : retighten st p = Ok st' -> ps_next st' = ps_next st.
+Proof.
+  unfold retighten. intro H. destruct p as [item|]; [|inversion H; reflexivity].
+  destruct (parent_of item (ps_root st)) as [lid|]; [|inversion H; reflexivity].
+  destruct (get st lid) as [l| |] eqn:G; cbn [bind] in H; try discriminate H.
+  destruct (bi_open (binf l)); [inversion H; reflexivity|].
+  destruct (bval l) eqn:Bv; try (inversion H; reflexivity).
+  unfold modify_info, modify in H.
+  match type of H with match upd ?a ?b ?c with _ => _ end = _ => destruct (upd a b c); [|discriminate H] end.
+  inversion H; reflexivity.
+Qed.
+
 (* ================================================================== finalize *)
 Lemma finalize_TI o ex st id p st' : finalize o st id = Ok (p, st') -> TI o ex st -> TI o ex st'.
 Proof.
@@ -263,6 +288,7 @@ Proof.
                   | cbn; rewrite ?Ev; intro HD; first [discriminate HD | exact HD | reflexivity]
                   | cbn; rewrite ?Ev; first [left; reflexivity | right; split; reflexivity]]).
   (* the paragraph that is removed *)
+  all: try match goal with R : retighten _ _ = Ok _ |- _ => eapply retighten_TI; [exact R|] end.
   all: match goal with D : bdetach (st_refmap ?s1 _) _ = Ok _, M : modify_info _ _ (fun _ => ?f) = Ok ?s1 |- _ =>
          eapply bdetach_TI; [exact D | apply TI_st_refmap | ];
          [ eapply MI; [exact M | reflexivity | cbn; rewrite ?Ev; reflexivity | cbn; rewrite ?Ev; intro HD; discriminate HD
@@ -311,7 +337,8 @@ Proof.
            | H : match upd ?a ?b ?c with _ => _ end = Ok _ |- _ => destruct (upd a b c); [|discriminate H]
            | H : bdetach _ _ = Ok _ |- _ => unfold bdetach in H
            | H : match edit_kids ?a ?b ?c with _ => _ end = Ok _ |- _ => destruct (edit_kids a b c)
-           end; reflexivity.
+           | H : retighten _ _ = Ok _ |- _ => apply retighten_next in H; cbn [ps_next st_root st_refmap] in H
+           end; try reflexivity; try congruence.
 Qed.
 
 Lemma UQ_fresh ex st new n' :
